@@ -3918,7 +3918,7 @@ class C14(Oracle):
             if name in ('rooms', 'crossing', 'keydoor', 'empty', 'teleport', 'memory'):
                 # cheap to search: many draws of the same parameter set (a layout that is unwinnable for one
                 # draw in a hundred is unwinnable)
-                c['more_seeds'] = [rng.randrange(2**31) for _ in range(8)]
+                c['more_seeds'] = [rng.randrange(2**31) for _ in range(24 if name == 'rooms' else 8)]
             yield c
 
     def from_line(self, line):
